@@ -70,7 +70,7 @@ def observe_cell(ml, c, work):
 
     def name_kind(kw):
         if "name" not in kw:
-            return "NMissing"
+            return "NNone"      # not passing name = passing the class method's default None
         if kw["name"] is None:
             return "NNone"
         return "NGiven" if kw["name"] == GIVEN_NAME else "NWrong"
